@@ -14,6 +14,8 @@ so that two programs which differ only by them are analysed as the same program.
   4. a `for` over a literal tuple of tuples (or of expressions) whose body neither breaks nor continues is unrolled.
   5. `else` after a block that always leaves (return / raise / continue / break) is flattened.
   6. private module constants with a literal integer/string value are folded.
+  7. small exact rewrites: `a if not c else b` -> `b if c else a` (also for two-armed statements), x[slice(a, b)] -> x[a:b],
+     (a, b, c)[1] -> b, integer arithmetic on literals, tuple(<comprehension over known elements>) -> display.
 
 Every rewritten node keeps the line of the construct it came from, so findings still point into the source.  The
 rewrites are exact for the Python subset of this repository under the assumptions listed in DESIGN.md (no rebinding of
@@ -220,6 +222,12 @@ class _Fold(ast.NodeTransformer):
             if out is not None:
                 new = ast.Tuple(elts=out, ctx=ast.Load()) if n.func.id == 'tuple' else ast.List(elts=out, ctx=ast.Load())
                 return _set_loc(new, n)
+        return n
+
+    def visit_IfExp(self, n):
+        self.generic_visit(n)
+        if isinstance(n.test, ast.UnaryOp) and isinstance(n.test.op, ast.Not):
+            return ast.copy_location(ast.IfExp(test=n.test.operand, body=n.orelse, orelse=n.body), n)
         return n
 
     def visit_BinOp(self, n):
@@ -476,6 +484,11 @@ class ModuleNormaliser:
             if isinstance(s, ast.Try):
                 for h in s.handlers:
                     h.body = self.struct_block(h.body, fn)
+            # `if not c: A else: B`  ->  `if c: B else: A`
+            if isinstance(s, ast.If) and s.orelse and isinstance(s.test, ast.UnaryOp) and isinstance(s.test.op, ast.Not) \
+                    and not (len(s.orelse) == 1 and isinstance(s.orelse[0], ast.If)) and not skip('swapnot'):
+                s.test, s.body, s.orelse = s.test.operand, s.orelse, s.body
+                self.log.append(('swap-not', fn.name, s.lineno))
             # 5. else after a block that always leaves
             if isinstance(s, ast.If) and s.orelse and _terminates(s.body) and not skip('flatten'):
                 rest = s.orelse
